@@ -1,7 +1,9 @@
+pub mod c01;
 pub mod c03;
+pub mod c18;
 
 use crate::run::Prop;
 
 pub fn all() -> Vec<Prop> {
-  vec![c03::prop()]
+  vec![c01::prop(), c03::prop(), c18::prop()]
 }
